@@ -17,7 +17,10 @@ TYPE_EXT = {
     'Number': {'decl': _opaque('Number', 'crate::number::Number')},
     'Vector': {'decl': _opaque('Vector', 'crate::vm::vector::Vector')},
     'Continuation': {'decl': _opaque('Continuation', 'crate::vm::continuation::Continuation')},
-    'Lambda': {'decl': _opaque('Lambda', 'crate::vm::lambda::Lambda')},
+    # Lambda has only public fields: transparent (the collector walks bc / args / envmap)
+    'Lambda': {'decl': '#[verifier::external_type_specification] pub struct ExLambda(crate::vm::lambda::Lambda);', 'needs': ['EnvironmentMap', 'Cell', 'VCell']},
+    'EnvironmentMap': {'decl': _opaque('EnvironmentMap', 'crate::vm::environment::EnvironmentMap')},
+    'BindingSource': {'decl': _opaque('BindingSource', 'crate::vm::environment::BindingSource')},
     'LexicalEnvironment': {'decl': _opaque('LexicalEnvironment', 'crate::vm::environment::LexicalEnvironment')},
     'Transform': {'decl': _opaque('Transform', 'crate::vm::transform::Transform')},
     'BuiltInProc': {'decl': _opaque('BuiltInProc', 'crate::vm::vcell::BuiltInProc')},
@@ -84,7 +87,7 @@ PROPS = {
             'assumptions': [
                 'scope: the collector mechanisms of heap.rs / gc.rs (Map, alloc, free, put, sweep, mark, mark_vcell); root enumeration in Vm::run_gc and the claim that run_one never dereferences a free cell are NOT decided',
                 'termination of mark / mark_vcell is not proved (exec_allows_no_decreases_clause)',
-                'mark_continuation, mark_lambda, Heap::grow, Map::get/new/resize: contracts assumed on the Verus side (Kani harnesses listed cover Map::get completely, new/resize bounded)',
+                'mark_continuation, Heap::grow, Map::get/new/resize: contracts assumed on the Verus side (Kani harnesses listed cover Map::get completely, new/resize bounded)',
                 'payload views vector_view/env_view and the child relations cont_kid/lambda_kid/vkid are uninterpreted; axiom_vkids defines vkid by cases (trusted)',
                 'interior-mutable payloads (Vector, LexicalEnvironment) are treated as values: nothing mutates them during a collection',
                 'no Symbol cell is written except through put/maybe_put (get_at_index_mut is outside the contract)',
